@@ -943,7 +943,10 @@ def analyze_case(case):
         if rnd.random() < 0.6:          # threshold configurations are a debug-mode feature
             thr = rnd.choice([1, 500, 2500, 10 ** 9])
             cfg = os.path.join(root, 'cfg.toml')
-            open(cfg, 'w').write(f'[analyze.thresholds]\nwarn_blob_bytes = {thr}\nwarn_commit_msg_bytes = {rnd.choice([5, 40, 10000])}\nwarn_max_parents = {rnd.choice([1, 2, 8])}\n')
+            head_cfg = rnd.choice(['', '[analyze]\njson = false\n', '[analyze]\njson = false\ntop = 7\n'])     # the command line wins over the file
+            open(cfg, 'w').write(f'{head_cfg}[analyze.thresholds]\nwarn_blob_bytes = {thr}\nwarn_commit_msg_bytes = {rnd.choice([5, 40, 10000])}\nwarn_max_parents = {rnd.choice([1, 2, 8])}\n')
+            if head_cfg:
+                count('config-file-contradicts-the-command-line')
             extra = ['--debug-mode', '--config', cfg]
             count('with-threshold-config')
         count(f'top-{top}')
@@ -1280,6 +1283,18 @@ def detect_case(case):
             elif hit:
                 fail(f'after --replace-text with the generated file the value {v!r} still occurs in reachable blob {hit[0][:12]}')
         count('loop-closed-runs')
+        # a second scan in the same repository (its report is shorter now): everything it lists must occur in a reachable blob
+        rc3, _, err3, _ = run_tool(repo, args)
+        if rc3 == 0 and os.path.exists(report):
+            try:
+                vals2 = parse_detected(report)
+            except ValueError as e:
+                fail(f'the report of a second scan in the same repository is malformed: {e}')
+                vals2 = []
+            for v in vals2:
+                if not any(v.encode() in data for data in blobs2.values()):
+                    fail(f'a second scan in the same repository reports {v!r}, which occurs in no reachable blob (left over from the first report?)')
+            count('second-scan-checked')
         return res
     except Exception as e:
         import traceback
@@ -1427,9 +1442,22 @@ def twice_case(case):
             count('layout-bare')
         else:
             count('layout-plain')
+        cli = ['--force'] + [x.replace('@AUX@', aux) for x in case['cli']]
+        tips_a = [v[0] for kk, v in sorted(refs(a).items()) if v[1] == 'commit']
+        if k % 6 == 4 and tips_a and '--tag-rename' not in cli:
+            # two annotated tags that collide under the rename, with messages of a few KB or larger than a pipe buffer: the second block is
+            # dropped, and how its payload is skipped must not depend on how the exporter's output is chunked
+            big = os.path.join(root, 'bigmsg')
+            # alternately smaller than a reader buffer (so that only the chunking decides whether it arrives whole) and larger than a pipe buffer
+            open(big, 'w').write('release notes\n' + 'line of the tag message 0123456789\n' * (90 if k % 12 == 4 else 4000))
+            git(a, 'tag', '-a', '-F', big, 'v-dup', tips_a[0]); git(a, 'tag', '-a', '-F', big, 'w-dup', tips_a[-1])
+            cli += ['--tag-rename', 'v-:w-']
+            count('colliding-annotated-tags-with-large-messages')
+        if k % 5 == 2 and k % 7 != 6 and tips_a:
+            git(a, 'checkout', '-q', '--detach', check=False)      # a detached HEAD is re-attached to a branch: which one must not vary
+            count('detached-head')
         b = os.path.join(root, 'copy B with blanks')
         shutil.copytree(a, b, symlinks=True)
-        cli = ['--force'] + [x.replace('@AUX@', aux) for x in case['cli']]
         if '--date-set' not in cli and '--date-shift' not in cli and k % 4 != 3:
             # date options given as text: zone-less strings must not be read in the local time zone
             cli += [['--date-set', '2021-03-04 05:06:07'], ['--date-set', '2021-03-04'], ['--date-set', '2021-03-04T05:06:07+09:00'],
@@ -1497,7 +1525,7 @@ def sized_stream(n, blobsize, files_per_commit=1, branches=1):
             blobs.append(mark)
         mark += 1
         br = b'refs/heads/b%d' % (i % branches)
-        msg = b'commit %03d\n' % (i % 1000)
+        msg = b'' if i % 40 == 7 else b'commit %03d\n' % (i % 1000)          # an empty message now and then
         out.append(b'commit %s\nmark :%d\ncommitter T <t@e> %d +0000\ndata %d\n%s' % (br, mark, 1000 + i, len(msg), msg))
         if br in prev:
             out.append(b'from :%d\n' % prev[br])
@@ -1535,6 +1563,9 @@ def sweep_cases(tier):
         add('filter', n, 9, [None, 'chunk'][len(cases) % 2])
         add('filter', n, 9, ['slow', None][len(cases) % 2], ['--path-rename', 'd1/:moved/', '--max-blob-size', '5'])
         add('filter', n, 9, [None, 'buffer'][len(cases) % 2], ['--path', 'd2/', '--prune-empty', 'always'])
+    # a SHA-256 repository, rewritten twice (the second run finds the first run's maps and asks the importer for ids)
+    for n in ([60, 700] if tier == 'quick' else [60, 300, 700, 3000]):
+        add('filter-sha256', n, 9, [None, 'chunk'][len(cases) % 2], ['--path-rename', 'd1/:moved/'])
     for bs in ([70000, 300000] if tier == 'quick' else [4096, 65536, 70000, 300000, 3000000]):
         add('filter', 30, bs, [None, 'chunk'][len(cases) % 2], ['--max-blob-size', '1000'])
         add('filter', 30, bs, ['chunk', None][len(cases) % 2])
@@ -1548,7 +1579,7 @@ def sweep_case(case):
     limit = case.get('limit', 300)
     try:
         repo = os.path.join(root, 'repo')
-        subprocess.run(['git', 'init', '-q', repo], check=True, env=GIT_ENV, stdout=subprocess.DEVNULL)
+        subprocess.run(['git', 'init', '-q'] + (['--object-format=sha256'] if case['mode'] == 'filter-sha256' else []) + [repo], check=True, env=GIT_ENV, stdout=subprocess.DEVNULL)
         if case['mode'] == 'detect-many':
             import random
             rnd = random.Random(case['id'])
@@ -1577,7 +1608,13 @@ def sweep_case(case):
             env = perturbed_env(root, case['id'], case['shim'])
             env['FRRS_SHIM_IN'], env['FRRS_SHIM_OUT'] = ('4096', '4096') if nobj * max(case['blobsize'], 60) > 3_000_000 else ('113', '251')
         args = {'detect': ['--detect-secrets'], 'detect-many': ['--detect-secrets'], 'analyze': ['--analyze', '--analyze-json'],
-                'filter': ['--force'] + case['args'], 'filter-noisy': ['--force'] + case['args']}[case['mode']]
+                'filter': ['--force'] + case['args'], 'filter-noisy': ['--force'] + case['args'], 'filter-sha256': ['--force'] + case['args']}[case['mode']]
+        if case['mode'] == 'filter-sha256':
+            # first run (unpaced) leaves commit-map behind; the measured run is the second one
+            p0 = subprocess.run([FR, '--force'], cwd=repo, stdout=subprocess.PIPE, stderr=subprocess.PIPE, env=GIT_ENV, timeout=limit)
+            if p0.returncode != 0:
+                res['failures'].append(('C17', f'first run on a SHA-256 repository exited {p0.returncode}: {p0.stderr.decode("utf-8", "replace")[-200:]}'))
+                return res
         t0 = time.time()
         try:
             p = subprocess.run([FR] + args, cwd=repo, stdout=subprocess.PIPE, stderr=subprocess.PIPE, env=env, timeout=limit)
@@ -1733,6 +1770,13 @@ def head_case(case):
             sh(f'git checkout -q -f {first[len("refs/heads/"):]!r}')
         sh('git reset -q --hard; git clean -fdq')
         scen = ['tip-prune', 'partial-with-matching-rename', 'chained-rename', 'head-branch-fully-pruned', 'tip-prune-and-rename', 'generated-options-detached', 'generated-options'][k % 7]
+        if k % 3 == 1:
+            # other refs with the same short name as the checked-out branch (git then abbreviates HEAD as heads/<name>), and a
+            # branch that sorts before it
+            name = head_of(repo)[len('refs/heads/'):]
+            subprocess.run(['git', '-C', repo, 'tag', name], env=GIT_ENV, stdout=subprocess.DEVNULL, stderr=subprocess.DEVNULL)
+            subprocess.run(['git', '-C', repo, 'branch', '-f', '-- 0-sorts-first' if False else '0-sorts-first'], env=GIT_ENV, stdout=subprocess.DEVNULL, stderr=subprocess.DEVNULL)
+            count('tag-named-like-the-branch')
         count('scenario-' + scen)
         br = None
         if scen in ('tip-prune', 'tip-prune-and-rename'):
